@@ -207,12 +207,20 @@ def t16_mat(run, fx):
     got = []
     for a in t["args"]:
         ij = None
+
+        def const_index(x):
+            """(base, k) of `base[k]` written as an index expression or as an array pattern (`[[a, b], [c, d]]`)"""
+            if x[0] == "index" and x[2][0] == "c":
+                return sym.strip(x[1]), x[2][1]
+            if x[0] == "cindex" and not x[3]:
+                return sym.strip(x[1]), x[2]
+            return None
         for x in sym.walk(cprov.op(a)):
-            if x[0] == "index" and x[2][0] == "c" and sym.strip(x[1])[0] == "index" and sym.strip(x[1])[2][0] == "c":
-                inner = sym.strip(x[1])
-                if any(y[0] == "variant" and y[2] == "Matrix" for y in sym.walk(inner[1])):
-                    ij = (inner[2][1], x[2][1])
-                    break
+            outer = const_index(x)
+            inner = const_index(outer[0]) if outer else None
+            if outer and inner and any(y[0] == "variant" and y[2] == "Matrix" for y in sym.walk(inner[0])):
+                ij = (inner[1], outer[1])
+                break
         got.append(item.get(ij))
     # WE_HAVE_AN_X_AND_Y_SCALE: xscale is read first and scales x, yscale second and scales y
     xy_pos = {}
